@@ -95,7 +95,8 @@ package log
 //@   loop#2 invariant framed()
 //@   loop#2 invariant forall k string : has(index, k) ==> (index[k] < 0 ==> 0 <= -(index[k] + 1) && -(index[k] + 1) < r.nFront) && (index[k] >= 0 ==> index[k] < len(r.back))
 
-// SetAttributes: the count limit holds afterwards, and every stored attribute was limited on the way in
+// SetAttributes: the count limit holds afterwards, and every stored attribute was limited on the way in; the count limit is
+// applied to the DE-DUPLICATED list (so the earliest distinct keys are the ones retained)
 //@ func (r *Record) SetAttributes(attrs []log.KeyValue)
 //@   overflow assumed
 //@   known KF-C17-count-limit-zero when r.attributeCountLimit == 0
@@ -103,6 +104,7 @@ package log
 //@   modifies r.front, r.nFront, r.back, r.dropped, elems(attrs)
 //@   ensures r.attributeCountLimit > 0 ==> r.nFront + len(r.back) <= r.attributeCountLimit
 //@   ensures r.nFront + len(r.back) <= len(attrs)
+//@   assert@call head#1 : uniqueKeys($arg0)
 //@   assert@store front#* : limitedKV(r.attributeValueLengthLimit, $val)
 //@   assert@store elem#* : limitedKV(r.attributeValueLengthLimit, $val)
 //@   loop#1 invariant 0 <= i && i <= len(attrs) && r.nFront == i && r.nFront <= 5 && r.dropped >= 0
@@ -119,6 +121,7 @@ package log
 //@   unchecked frame both dedup paths write the caller's slice and the record; only the stores into the record are pinned down here
 //@   requires r != nil && disjoint(attrs, r.back)
 //@   ensures r.attributeCountLimit > 0 && old(r.nFront) + old(len(r.back)) <= r.attributeCountLimit ==> r.nFront + len(r.back) <= r.attributeCountLimit
+//@   assert@call head#1 : uniqueKeys($arg0)
 //@   assert@store front#* : limitedKV(r.attributeValueLengthLimit, $val)
 //@   assert@store elem#2 : limitedKV(r.attributeValueLengthLimit, $val)
 //@   loop#1 invariant indexed(unique, uIndex) && samearray(unique, attrs) && cap(unique) == cap(attrs) && len(unique) <= $k && uIndex != nil && rIndex != nil
